@@ -1,7 +1,11 @@
 """C06 — nufft approximates the non-uniform DFT to its stated accuracy; nufft_adjoint is its exact adjoint.
 
-level: proof (partial): structure (scalings, centre, periodicity, stagewise adjointness) is proved about the
-translator-generated formulas; the accuracy bound itself is analytic and only MEASURED by the search oracle.
+level: proof (partial): structure is proved about the translator-generated formulas — scalings, centre, periodicity;
+`nufft_adjoint` = `nufft`^H for the concrete 1-D and 2-D pipelines with every stage fact discharged from C05 / C09 / C07
+(only assumptions: real apodisation weights, real-valued kernel); the Toeplitz normal operator (`toeplitz_psf`,
+`NUFFT._normal_linop`): A^H A of the exact NUDFT is Toeplitz and R^H F^H diag(p) F R reproduces any Toeplitz operator
+exactly (sigpy's centred conventions).  The accuracy bound itself (and the accuracy of the computed psf) is analytic and
+only MEASURED by the search oracle.
 """
 import json
 import math
@@ -14,12 +18,30 @@ from harness import common
 from harness.translate import gen as G
 
 PROPERTY = "C06"
-LEAN_MODULES = ["SigpyVerif.Props.C06"]
+LEAN_MODULES = ["SigpyVerif.Props.C06", "SigpyVerif.Props.C06Nd", "SigpyVerif.Props.C06Toeplitz"]
 THEOREMS = ["SigpyVerif.C06." + t for t in [
     "os_sites_agree", "oversampLen_ge", "scaleCoord_period", "nufft_periodic1", "nufft_periodic2", "nufft_periodic3",
     "nudft_periodic", "grid_centre_consistency", "crop_centre_consistency", "dc_lands_on_centre",
     "scale_consistency", "pipeline_checked", "pipeline_adjoint", "nufft_adjoint_is_adjoint",
+    # the concrete 1-D pipeline: stage facts discharged from C05 / C09 / C07 (Lemmas/C06.lean + Props/C06.lean)
+    "inner_toEuclideanLin", "resizeMat_transpose", "resizeMat_conjTranspose", "resizeMat_apply", "updLin_adjoint",
+    "apod_selfadjoint", "resize_adjoint", "ufft_adjoint", "interp_adjoint", "oversampLen_pos",
+    "nufft_adjoint_is_adjoint_1d", "nufft_adjoint_is_adjoint_1d_code",
+    # two transform axes: the per-axis facts composed (Lemmas/C06Nd.lean + Props/C06Nd.lean)
+    "zipWith_default_swap", "resizeMatNd_conjTranspose", "updLinG_adjoint", "apodG_selfadjoint", "resize2_adjoint",
+    "ufft2_adjoint", "interp2_adjoint", "nufft_adjoint_is_adjoint_2d",
+    # toeplitz_psf / NUFFT._normal_linop (Props/C06Toeplitz.lean)
+    "toep_embed_len", "toep_coord_doubled", "toep_delta_on_centre", "toep_final_mul", "toeplitz_checked",
+    "nudft_gram_toeplitz", "toep_psf_is_kernel", "circulant_diagonalised", "toeplitz_embedding_exact",
+    "toeplitz_structure",
 ]]
+
+# Toeplitz normal operator (search oracle): A.N(x) against A.H(A(x)) for NUFFT(..., oversamp=2, width=w, toeplitz=True).
+# Tolerance: the clean-tree maximum of the relative l2 deviation over 12000 cases of `gen_case` (1-3 D, all coordinate
+# kinds, batched) was 2.6e-5 for w=7 and for w=8 (median 1.3e-6 / 2.6e-6; limited by the Kaiser-Bessel accuracy of that
+# kernel and the complex64 psf); a psf built with a different kernel (e.g. the default oversamp=1.25 / width=4)
+# deviates by 1.6e-3 (10 % quantile) .. 3e-3 (median).  3e-4 is > 11 x the clean maximum and > 5 x below that quantile.
+TOEPLITZ_TOL = {8: 3e-4, 7: 3e-4}
 
 OVERSAMPS = [1.25, 1.5, 2]
 WIDTHS = [3, 4, 5, 6]
@@ -252,13 +274,21 @@ def correspond(ctx):
     bad = _reified_stream(ctx)
     ctx.oblige("correspondence:C06.reified", "correspondence", bad == 0, "%d disagreements" % bad)
     ctx.traces = ctx.evaluations
-    ctx.notes.append("level: proof, PARTIAL — scalings, centre, periodicity and stagewise adjointness are theorems about the generated "
-                     "formulas; the 3 % / 0.3 % accuracy bound is measured by the search oracle (per-coordinate row error of the "
-                     "implementation matrix against the exact NUDFT), not proved")
+    ctx.notes.append("level: proof, PARTIAL — scalings, centre, periodicity are theorems about the generated formulas; adjointness is proved "
+                     "for the concrete 1-D / 2-D pipelines built from C05's DFT matrices, C09's resize relation and C07's generated update "
+                     "lists (nufft_adjoint_is_adjoint_1d / _2d: no stage hypothesis left); toeplitz_psf / NUFFT._normal_linop: call structure "
+                     "extracted by the translator, embedding formulas proved, A^H A Toeplitz and the circulant embedding exact "
+                     "(toeplitz_embedding_exact, centred conventions).  The 3 % / 0.3 % accuracy bound is measured by the search oracle "
+                     "(per-coordinate row error of the implementation matrix against the exact NUDFT), not proved; likewise the accuracy of the "
+                     "COMPUTED psf (Kaiser-Bessel nufft of a unit sample, complex64): oracle only (A.N(x) vs A.H(A(x)) at oversamp=2, width 7/8, 3e-4)")
     ctx.assumptions += [
         "the accuracy bound (3 % / 0.3 %) is analytic and NOT proved: it is measured against the exact NUDFT by the search oracle",
-        "stage facts used as hypotheses of nufft_adjoint_is_adjoint are owned by other properties: centred unnormalised FFT/IFFT (C05), "
-        "Resize pad/crop adjoint pair (C09/C01), gridding = interpolate^T (C07); apodisation weights real (checked numerically in the apodize stream)",
+        "nufft_adjoint_is_adjoint_1d/_2d assume only: the apodisation weights are real (checked numerically in the apodize stream) and the "
+        "interpolation kernel is a real-valued function of its argument (Kaiser-Bessel: sqrt/I0 of reals); the FFT / resize / gridding stage "
+        "facts are imported theorems of C05 / C09 / C07 (their own models are tied to numpy / the source by those properties' checks); "
+        "3-D composes identically (Gen.interp3, triple Kronecker product) and is not written out; batch axes are the same map per item (oracle)",
+        "toeplitz_embedding_exact / toeplitz_structure are about the EXACT kernel t; that the psf computed by toeplitz_psf (approximate nufft "
+        "/ nufft_adjoint of a unit sample, complex64) is close to t is oracle-only (C06:toeplitz.normal)",
         "float evaluation of ceil(oversamp*N): the model is evaluated at the effective rational oversamp fl(os*N)/N (identical for dyadic oversamp)",
     ]
 
@@ -301,7 +331,7 @@ def gen_case(rng, os_w=None, shape=None):
     batch = rng.choice([[], [], [2], [1, 2]])
     return dict(shape=shape, pts=pts, kind=kind, coord=co, os=os_w[0], width=os_w[1], batch=batch,
                 c64=rng.random() < 0.25, seed=rng.randint(0, 10 ** 9),
-                shift=[rng.choice([-2, -1, 1, 3]) for _ in shape])
+                shift=[rng.choice([-2, -1, 1, 3]) for _ in shape], toep_width=rng.choice([7, 8, 8]))
 
 
 def nudft_matrix(shape, coord):
@@ -420,6 +450,21 @@ def check_case(ctx, c, origin):
             fail("C06:linop", "linop.NUFFT / .H differ from nufft / nufft_adjoint (%s)" % tag, "differs", "equal")
     except Exception as e:  # noqa
         fail("C06:raises", "batched nufft / Linop raised %s" % type(e).__name__, repr(e), "result")
+    # 5. Toeplitz normal operator: NUFFT(..., toeplitz=True).N must be A^H A of THAT operator (its own oversamp / width):
+    #    compared at an accurate kernel (oversamp=2, width 7/8) so that a psf built with any other kernel is visible
+    tw = c.get("toep_width")
+    if tw is not None:
+        try:
+            T = linop.NUFFT(batch + shape, coord, oversamp=2, width=tw, toeplitz=True)
+            tn = np.asarray(T.N(x))
+            th = np.asarray(T.H(T(x)))
+            den = np.linalg.norm(th)
+            rel = float(np.linalg.norm(tn - th) / den) if den > 0 else float(np.linalg.norm(tn))
+            if list(tn.shape) != batch + shape or not rel <= TOEPLITZ_TOL[tw]:
+                fail("C06:toeplitz.normal", "NUFFT(oversamp=2, width=%d, toeplitz=True).N(x) differs from A.H(A(x))" % tw,
+                     dict(rel=rel, shape=list(tn.shape)), "<= %g relative (l2)" % TOEPLITZ_TOL[tw])
+        except Exception as e:  # noqa
+            fail("C06:raises", "Toeplitz normal operator raised %s" % type(e).__name__, repr(e), "result")
     return ok
 
 
